@@ -86,6 +86,9 @@ mod symbol_size;
 
 pub mod data;
 
+#[cfg(datamatrix_verif)]
+pub mod verif;
+
 pub use encodation::EncodationType;
 pub use symbol_size::{SymbolList, SymbolSize};
 
